@@ -1,5 +1,8 @@
 (* C06 - consistency verdicts, tolerance partitions, diagnostics, refusal.  Property theorems only. *)
 From InfOCF Require Import Core Tol TolExt Form Model Diag Thm06.
+From InfOCF Require Import PyLib TieCons TieZ TieP TieTop.
+From InfOCFGen Require Import SrcCond SrcCons SrcInf SrcZ SrcP.
+From Coq Require Import ZArith.
 From Coq Require Import Permutation.
 
 (* strict mode: "inconsistent" is reported exactly when no tolerance partition exists *)
@@ -62,6 +65,21 @@ Print Assumptions C06_refusal.
 Definition v i := FVar i.
 Definition birds := [ {|ckey:=1; ccons:=v 2; cante:=v 0|}; {|ckey:=2; ccons:=FNot (v 2); cante:=v 1|};
                       {|ckey:=3; ccons:=v 0; cante:=v 1|}; {|ckey:=4; ccons:=v 3; cante:=v 0|} ].
+(* SOURCE TIE.  py_consistency is GENERATED on every run from /repo's consistency_sat.py (coq/gen/SrcCons.v):
+   for every signature size, dictionary of conditionals and mode it returns, within |D|+1 rounds of its
+   `while True` loop, exactly the model's verdict and partition (read through `ac`); a base it rejects is one
+   the model refuses, and conversely. *)
+Theorem C06_source_code_is_model : forall n weakly (d:dict Z cond) u, exists r stats,
+  py_consistency n (S (length d)) (Build_pybase d) u weakly = Return (r, stats) /\
+  pres_map (map (map ac)) r = res_of (consistency n weakly (dict_values d)).
+Proof. exact tie_consistency. Qed.
+Print Assumptions C06_source_code_is_model.
+Theorem C06_source_refusal : forall n s weakly (d:dict Z cond) q u, dict_values d <> [] ->
+  exists r st, py_consistency n (S (length d)) (Build_pybase d) u weakly = Return (r, st) /\
+    (is_pfalse r = true <-> infer n s weakly (dict_values d) q = Refuse).
+Proof. exact e2e_refusal. Qed.
+Print Assumptions C06_source_refusal.
+
 Example birds_partition : consistency_indices 4 false birds = Some [[1;4];[2;3]]
   /\ consistency_idx 4 true (birds ++ [{|ckey:=5; ccons:=FBot; cante:=FAnd (v 3) (v 1)|}]) = Some [[1;4];[2;3];[5]]
   /\ consistency_indices 1 false [{|ckey:=1; ccons:=v 0; cante:=FTop|}; {|ckey:=2; ccons:=FNot (v 0); cante:=FTop|}] = None.
